@@ -225,7 +225,9 @@ def _large_task(task, out):
         held = []
         for rep in range(2):
             # group k holds class (k + rep) % 14, repeated along the group (period 16)
-            x = base[(gid + rep) % len(wq.CLASSES), pos % 16]
+            # (a group-dependent factor makes the content aperiodic: rows 14 apart would otherwise be identical and a block that
+            # lands on the wrong rows, or stale content of the right period, would go unnoticed)
+            x = base[(gid + rep) % len(wq.CLASSES), pos % 16] * (1.0 + ((gid * 37) % 101).to(torch.float64) / 128.0)
             # the extremes of every group sit in its tail (a range reduction that drops a partial last window under-estimates)
             x = torch.where(pos >= gsz - 3, x * 3.0, x).to(dt)
             try:
